@@ -182,7 +182,7 @@ def pipeline_diag(work, driver, cases, limit=400, tag="pipe"):
         return None
     if drift:
         log("[pipe] DRIFT (diagnostic, not a verdict): %s" % json.dumps(drift, sort_keys=True))
-    return dict(name="PipelineTrace.tla: %d stage snapshots of %d calls against the phase contracts of Pipeline.tla (layer 2) and %d phase-1 / layering / helper-node / ordering / coordinate / route / crossing-count / collect results predicted exactly by CycleBreakOps, NetSimplexOps, BreakAll, WMedianOps, PositionOps, NSPositionOps, RouteOps, OrderCrossings, Collect (layer 3), %d drifting" % (stats["stages"], stats["calls"], stats["l3predictions"], stats["drift"]),
+    return dict(name="PipelineTrace.tla: %d stage snapshots of %d calls against the phase contracts of Pipeline.tla (layer 2) and %d phase-1 / layering / helper-node / ordering / coordinate / route / crossing-count / collect results predicted exactly by CycleBreakOps, NetSimplexOps, LongestPathOps, BreakAll, WMedianOps, PositionOps, NSPositionOps, RouteOps, OrderCrossings, Collect (layer 3), %d drifting" % (stats["stages"], stats["calls"], stats["l3predictions"], stats["drift"]),
                 generated=int(m.group(1)), distinct=int(m.group(2)), wall=time.time() - t0, ok=True, drift=drift)
 
 
@@ -218,6 +218,13 @@ def netsimplex_model(work, tier):
                       ("SPECIFICATION Spec\nCONSTANTS NN = %d MM = %d Thoroughness = 28 Parallel = TRUE ACCUMULATE = FALSE RESET_TREE = TRUE Weights = {1} Deltas = {1} Mode = \"V\"\n"
                        "INVARIANTS FeasibleInv TreeIsSpanning CutValuesRight NoPanic Optimal NotStuck Contiguous LowestIsZero\nPROPERTIES ObjectiveNeverIncreases\nCHECK_DEADLOCK FALSE\n") % (n, m),
                       "NetSimplex.tla: every connected DAG multigraph with <= %d nodes / %d edges, one loop iteration per step (FeasibleInv, TreeIsSpanning, CutValuesRight, NoPanic, Optimal vs brute force, NotStuck, Contiguous, ObjectiveNeverIncreases)" % (n, m))
+
+
+def longestpath_model(work, tier):
+    n, m = (4, 5) if tier == "quick" else (5, 5)      # (5, 6): 67 M states, 24 min on 14 workers, no error
+    return mech_model(work, "LongestPath", "LongestPath.tla",
+                      "SPECIFICATION Spec\nCONSTANTS NN = %d MM = %d\nINVARIANTS MemoIsFinal RunningMax HeightsRight BandsMinimal FeasibleLP OrderIrrelevant\nCHECK_DEADLOCK FALSE\n" % (n, m),
+                      "LongestPath.tla: the memoised longest-path search on every connected DAG multigraph with <= %d nodes / %d edges x every visit order of the nodes, one root visit per step (MemoIsFinal, RunningMax, HeightsRight, BandsMinimal, FeasibleLP, OrderIrrelevant)" % (n, m))
 
 
 def netsimplex_h_model(work, tier):
